@@ -186,7 +186,18 @@ class SymbolicChooser(BaseChooser):
         with NoTracing():
             return SymbolicBoundedInt(self._name(label), int, lo, hi)
 
+    def untraced(self):
+        """Context manager: run a region into which no solver variable flows at native speed."""
+        from crosshair.tracers import NoTracing
+
+        return NoTracing()
+
     def pick(self, n: int, label: str = "") -> int:
+        from crosshair.tracers import ResumedTracing, is_tracing
+
+        if not is_tracing():
+            with ResumedTracing():
+                return self.pick(n, label)
         if n <= 0:
             raise HarnessError(f"pick({n}) at {label}")
         if n == 1:
@@ -232,6 +243,11 @@ class SymbolicChooser(BaseChooser):
 
 
 class ReplayChooser(BaseChooser):
+    def untraced(self):
+        import contextlib
+
+        return contextlib.nullcontext()
+
     def __init__(self, log: list[list]):
         self.src = list(log)
         self.i = 0
